@@ -2,6 +2,7 @@
 """Regenerate MANIFEST.json from the table below (keeps it schema-valid at all times)."""
 import json
 import os
+import sys
 
 HERE = os.path.dirname(os.path.abspath(__file__))
 PY = "/venv/bin/python"
@@ -52,3 +53,19 @@ m = {
 }
 json.dump(m, open(os.path.join(HERE, "MANIFEST.json"), "w"), indent=1)
 print("MANIFEST.json: %d checks, %d not_applicable" % (len(checks), len(na)))
+# validate against the task's schemas when they are present (python3-vt has jsonschema)
+import subprocess
+
+_v = subprocess.run(["python3-vt", "-c", """
+import json, sys, glob
+import jsonschema
+jsonschema.validate(json.load(open(sys.argv[1])), json.load(open('/root/.vp/MANIFEST.schema.json')))
+es = json.load(open('/root/.vp/EVIDENCE.schema.json'))
+n = 0
+for f in glob.glob(sys.argv[2] + '/evidence/*.json'):
+    jsonschema.validate(json.load(open(f)), es); n += 1
+print('schemas ok (manifest + %d evidence files)' % n)
+""", os.path.join(HERE, "MANIFEST.json"), HERE], capture_output=True, text=True)
+print((_v.stdout + _v.stderr).strip()[-600:])
+if _v.returncode:
+    sys.exit(1)
